@@ -5,6 +5,7 @@
 use std::io::{self, BufRead, Write};
 use std::panic;
 
+pub mod pdfobj;
 pub use parsley_rust::pcore::parsebuffer::{ErrorKind, LocatedVal, ParseBuffer, ParseBufferT};
 
 pub fn unhex(s: &str) -> Vec<u8> {
